@@ -258,12 +258,14 @@ Proof.
   apply roundQ_compat. rewrite factor_toQ. reflexivity.
 Qed.
 
+Lemma rescale_same a e : exp a = e -> rescale a e = a.
+Proof. intros <-. unfold rescale. rewrite Nat.ltb_irrefl. reflexivity. Qed.
+
 Lemma pct_from_val p a : val (factor p) <> 0 ->
   val (pct_from p a) = val a - roundQ (exp a) (Qdiv (toQ a) (Qplus (toQ p) 1)).
 Proof.
   intros H. unfold pct_from, sub. cbn [val exp]. fold (remove a p).
-  unfold rescale. cbn [exp]. unfold remove at 1 2. rewrite div_exp, Nat.ltb_irrefl.
-  fold (remove a p). rewrite remove_val by exact H. reflexivity.
+  rewrite rescale_same by reflexivity. rewrite remove_val by exact H. reflexivity.
 Qed.
 
 (* ---------- threshold rule ---------- *)
@@ -278,12 +280,18 @@ Proof.
   unfold threshold. destruct (compare_spec v thr) as (L & E & G).
   assert (T : compare v thr = -1 \/ compare v thr = 0 \/ compare v thr = 1).
   { unfold compare. destruct (_ <? _); [auto|destruct (_ <? _); auto]. }
+  assert (LE1 : Qle (toQ thr) (toQ v) <-> compare v thr = 1 \/ compare v thr = 0).
+  { rewrite Qle_lteq, G, E. split; (intros [?|?]; [left; assumption|right]).
+    - symmetry; assumption.
+    - symmetry; assumption. }
+  assert (LE2 : Qle (toQ v) (toQ thr) <-> compare v thr = -1 \/ compare v thr = 0).
+  { rewrite Qle_lteq, L, E. tauto. }
   destruct (op =? 0); [|destruct (op =? 1); [|destruct (op =? 2); [|destruct (op =? 3)]]];
     rewrite ?orb_true_iff, ?Z.eqb_eq.
-  - tauto.
-  - rewrite Qle_lteq. rewrite G, E. split; [intros [?|?]|intros [?|?]]; auto. right. symmetry. apply E. rewrite <- E. symmetry. auto. right. apply E. symmetry. auto.
-  - tauto.
-  - rewrite Qle_lteq. rewrite L, E. tauto.
+  - exact G.
+  - symmetry; exact LE1.
+  - exact L.
+  - symmetry; exact LE2.
   - split.
     + intros [H|H] Q; apply E in Q; lia.
     + intros N. destruct T as [T|[T|T]]; auto. exfalso. apply N, E, T.
